@@ -1392,6 +1392,12 @@ is_job_invalid(IMB_MGR *state, const IMB_JOB *job, const IMB_CIPHER_MODE cipher_
                         imb_set_errno(state, IMB_ERR_JOB_CIPH_LEN);
                         return 1;
                 }
+                /* encryption goes through multi-buffer managers with 16-bit lane lengths (as AES-CBC) */
+                if (cipher_direction == IMB_DIR_ENCRYPT &&
+                    job->msg_len_to_cipher_in_bytes > MB_MAX_LEN16) {
+                        imb_set_errno(state, IMB_ERR_JOB_CIPH_LEN);
+                        return 1;
+                }
                 break;
         default:
                 imb_set_errno(state, IMB_ERR_CIPH_MODE);
